@@ -453,7 +453,9 @@ def c09(rec):
     out = []
 
     def prod(fs):
-        return freduce(times, fs)
+        # the product of the returned factors, with the unit for an empty list (as sum_product)
+        from funsor.ops import UNITS
+        return freduce(times, fs, Number(UNITS[times]))
 
     def judge(what, fn):
         try:
